@@ -40,11 +40,13 @@ CORNERS = [
     "@print 1 ** (2 ** 1100)", "@print (-1) ** (10 ** 400)", "@print 0 ** (10 ** 400)", "@print 2 ** (2 ** 1100)", "uint8[<=2 ** (2 ** 1100)] pw", "@print 2 ** 2 ** 2 ** 2",
     "@print {1, 2} ** (2 ** 1100)", "@print 1.5 ** (2 ** 1100)", "@print 2 ** -(2 ** 1100)", "@print 2 ** (2 ** 1100 + 0.5)", "@assert 1 ** (2 ** 1024) == 1", "@print (1/2) ** (2 ** 1030)",
     "@print (2 ** 1100) ** (2 ** 1100)", "@print 3 ** (3 ** 7) ** 2", "@print (10 ** 5000) ** 1000 > 0", "@print 2 ** (2 ** 1023)", "@print (-2) ** (2 ** 1100 + 1)",
+    "@print {{1}, {1, 2}}.min", "@print {{1}, {1, 2}}.max", "@assert {{1}, {2}}.count == 2", "@print {{1, 2}, {3}}.min", "@print {{'a'}, {'a', 'b'}}.max", "@print {{true}}.min",
+    "@print {{1}, {1, 2}} == {{1, 2}, {1}}", "@print {{1}} | {{2}}", "@print {{1}, 2}", "@print {{}}", "@print {{1}, {1.5}}.max", "@print {uint8, int8}.min", "@print {{1}, {2}} < {{1}, {2}, {3}}",
     "uint8 a # \x00 control in a comment", "uint8 é", "uint8 a\x0bb", "\ufeffuint8 a", "uint8 a\x0c", "uint8\u00a0a", "uint8 a\u2028uint8 b",
 ]
 SVC_CORNERS = ["%s svc_field\n@print _offset_", "%s svc_field\n@assert _offset_.count > 0", "uint8 pre_svc\n%s svc_field\nuint8[<=_offset_.max + 1] post_svc", "%s[<=2] svc_var\n@print _offset_",
                "@print %s._extent_", "@print %s._bit_length_", "%s svc_field", "%s[2] svc_arr", "@assert %s.nope == 1", "@print %s == %s"]
-STRAY_NAMES = ["Dir.1.0.dsdl/", "Dir.1.0.uavcan/", "7.Dir.1.0.dsdl/", "Dir.1.0.dsdl/Inner.1.0.dsdl", "Msg.1.0.dsdl/", "README.md", "Foo.dsdl", "Foo.1.dsdl", "Foo.1.0.0.0.dsdl", "1.2.Foo.1.0.dsdl", "Foo.x.0.dsdl", "Foo.1.y.dsdl", "abc.Foo.1.0.dsdl",
+STRAY_NAMES = ["Dir.1.0.dsdl/", "Dir.1.0.uavcan/", "7.Dir.1.0.dsdl/", "Dir.1.0.dsdl/Inner.1.0.dsdl", "Msq.1.0.dsdl/", "README.md", "Foo.dsdl", "Foo.1.dsdl", "Foo.1.0.0.0.dsdl", "1.2.Foo.1.0.dsdl", "Foo.x.0.dsdl", "Foo.1.y.dsdl", "abc.Foo.1.0.dsdl",
                ".1.0.dsdl", "Foo..0.dsdl", "Foo.1..dsdl", ".dsdl", "..dsdl", "nodots.uavcan", "x.Foo.1.0.uavcan", "Foo.1.0.uavcan.dsdl",
                "Foo.-1.0.dsdl", "Foo.1.0 .dsdl", " Foo.1.0.dsdl", "Fo o.1.0.dsdl", "Føø.1.0.dsdl", "Foo.١.0.dsdl", "Foo.1.0.DSDL", "1a.1.0.dsdl",
                "a-b.1.0.dsdl", "uint8.1.0.dsdl", "Foo.0.0.dsdl", "Foo.256.0.dsdl", "9999.Foo.1.0.dsdl", "99999999999999999999.Foo.1.0.dsdl",
@@ -56,7 +58,7 @@ STRAY_NAMES = ["Dir.1.0.dsdl/", "Dir.1.0.uavcan/", "7.Dir.1.0.dsdl/", "Dir.1.0.d
 _TOKEN = re.compile(r"\s+|[A-Za-z_][A-Za-z0-9_]*|\d+|.", re.S)
 
 
-ATOMS = ["0", "1", "2", "-1", "7", "8", "64", "0.5", "1/3", "2.5e1", "0x10", "0b101", "true", "false", "'a'", "'ab'", "''", "{1}", "{1, 2}", "{3, 4}", "{1, 2, 3}",
+ATOMS = ["{{1}, {1, 2}}", "{{1}}", "0", "1", "2", "-1", "7", "8", "64", "0.5", "1/3", "2.5e1", "0x10", "0b101", "true", "false", "'a'", "'ab'", "''", "{1}", "{1, 2}", "{3, 4}", "{1, 2, 3}",
          "{true}", "{'a', 'b'}", "{1/2}", "_offset_", "uint8", "bool", "float16", "uint8[<=2]", "{0}", "{8, 16}"]
 BINOPS = ["+", "-", "*", "/", "%", "**", "|", "&", "^", "==", "!=", "<", "<=", ">", ">=", "||", "&&"]
 ATTRS = ["min", "max", "count", "_bit_length_", "_extent_", "nope", "x"]
@@ -267,6 +269,8 @@ class C13(Check):
                     if not any(p.startswith(r0["dir"] + "/") for r0 in ws["roots"]):
                         raise InvalidScenario("stray entry outside the roots")
                     if nm.endswith("/"):
+                        if os.path.isfile(w.abs(p.rstrip("/"))):
+                            raise InvalidScenario("a definition file of that name exists")
                         os.makedirs(w.abs(p), exist_ok=True)  # a directory whose name looks like a definition file
                     else:
                         w.write(p, f["text"] if n == 0 or f.get("twin_equal") else "uint16 other_body\n@sealed\n")
@@ -297,7 +301,7 @@ class C13(Check):
                 # legitimately reported where the cycle closes (in the other file)
                 shorts = {k0.split(".")[-3].lower() for k0 in uni.defs}
                 def mentions(t: str) -> set:
-                    return {x.split(".")[-1].lower() for x in re.findall(r"([A-Za-z_][A-Za-z0-9_.]*?)\s*\.\s*\d+\s*\.\s*\d+", t)}
+                    return {(re.sub(r"\s+", "", a).lower(), b, c) for a, b, c in re.findall(r"([A-Za-z_][A-Za-z0-9_.]*?)\s*\.\s*(\d+)\s*\.\s*(\d+)", t)}
                 new_refs = mentions(f["text"]) - mentions(w.texts[f["def"]])
                 if not sres["ok"] and classify_exc(sres["exc"]) == "IDE" and not new_refs:
                     offending = uni.file_of(f["def"])
